@@ -1077,12 +1077,25 @@ class FragText(str):
         pieces = []  # ('lit', text) | ('var', name)
         k = 0
         for mo in _RUN.finditer(frag):
-            if mo.start() > k:
-                pieces.append(("lit", frag[k:mo.start()]))
-            words = self._segment(mo.group(0), vocab)
+            meta = mo.start() > 0 and frag[mo.start() - 1] == "$"
+            if mo.start() - (1 if meta else 0) > k:
+                pieces.append(("lit", frag[k:mo.start() - (1 if meta else 0)]))
+            run = mo.group(0)
             off = mo.start()
+            if meta:
+                # `$NAME` (capitals): an explicit metavariable, standing for whatever local the code uses;
+                # the rest of the run (`$Gin0` = `$G in 0`) is ordinary text
+                mm = _re.match(r"[A-Z]+", run)
+                name = mm.group(0) if mm else run
+                pieces.append(("var", "$" + name))
+                run = run[len(name):]
+                off += len(name)
+                if not run:
+                    k = mo.end()
+                    continue
+            words = self._segment(run, vocab)
             for wi, w in enumerate(words):
-                pre = frag[off - 1] if off > 0 and wi == 0 else ("" if wi == 0 else "w")
+                pre = ("w" if (wi > 0 or off > mo.start()) else (frag[off - 1] if off > 0 else ""))
                 end = off + len(w)
                 post = frag[end:end + 2] if wi == len(words) - 1 else "w"
                 local_pos = (
@@ -1111,14 +1124,15 @@ class FragText(str):
         if not variables or len(variables) > 8:
             return None
         lit_words = {w for kind, w in pieces if kind == "lit" and _re.fullmatch(r"[A-Za-z_][A-Za-z_0-9]*", w) and w not in _KW}
-        if not lit_words:
+        if not lit_words and not any(v.startswith("$") for v in variables):
             return None  # nothing the function still has: anything would match anything
         if any(w not in hay.vocab for w in lit_words):
             return None  # cannot match here
         targets = sorted((b for b in hay.bound if b not in lit_words and b not in _KW), key=lambda x: (-len(x), x))
-        if not targets:
-            return None
         alt = "|".join(_re.escape(t) for t in targets)
+        alt_meta = "|".join(_re.escape(t) for t in sorted((b for b in hay.bound if b not in _KW), key=lambda x: (-len(x), x)))
+        if not targets and not (alt_meta and any(w.startswith("$") for w in variables)):
+            return None
         out = []
         seen = {}
         for kind, w in pieces:
@@ -1128,7 +1142,10 @@ class FragText(str):
                 out.append("(?P=%s)" % seen[w])
             else:
                 seen[w] = "v%d" % len(seen)
-                out.append("(?P<%s>%s)" % (seen[w], alt))
+                a = alt_meta if w.startswith("$") else alt
+                if not a:
+                    return None
+                out.append("(?P<%s>%s)" % (seen[w], a))
         return _re.compile("".join(out)), seen
 
     def _tolerant(self, frag, whole=False):
@@ -1155,10 +1172,29 @@ class FragText(str):
                         ok = False
                         break
                     vals[orig] = mo.group(g)
-                if ok and len(set(vals.values())) == len(vals):
+                plain = [v for o, v in vals.items() if not o.startswith("$")]
+                if ok and len(set(plain)) == len(plain):
                     self._map.update(vals)
                     return True
         return False
+
+    def fmatch(self, frag, bind=None):
+        """match a fragment with `$meta` variables; -> {"$meta": name, ..} or None.  `bind` fixes metas
+        decided by an earlier match (so that several statement-level facts talk about the same locals)."""
+        for k, v in (bind or {}).items():
+            frag = _re.sub(_re.escape(k) + r"(?![A-Za-z_0-9])", v, frag)
+        if "$" not in frag:
+            return dict(bind or {}) if frag in self else None
+        self._map = {}
+        try:
+            ok = self._tolerant(frag)
+        except _re.error:
+            ok = False
+        if not ok:
+            return None
+        out = dict(bind or {})
+        out.update({k: v for k, v in self._map.items() if k.startswith("$")})
+        return out
 
     def __contains__(self, frag):
         if str.__contains__(self, frag):
